@@ -81,4 +81,6 @@ PolyOrthogonal(scores) == LET P == PolyMonic(scores) IN
 (* encoding data: indicator matrix times coding; li = level index of each row (0 = null / unseen / absent) *)
 EncodeReduced(o, n, li) == [r \in DOMAIN li |-> [j \in 1..(n - 1) |-> IF li[r] = 0 THEN Zero ELSE Coding(o, n)[li[r]][j]]]
 EncodeFull(n, li) == [r \in DOMAIN li |-> [j \in 1..n |-> R(B2I(li[r] = j))]]
+\* a user-supplied coding matrix (CustomContrasts): the row of the level, whatever the rank requested; a null / unseen value is the zero row
+EncodeCustom(M, li) == [r \in DOMAIN li |-> [j \in DOMAIN M[1] |-> IF li[r] = 0 THEN Zero ELSE M[li[r]][j]]]
 =============================================================================
